@@ -373,11 +373,11 @@ pub fn deep_lex(v: &Vocab, depth: usize, kind: usize) -> LexTerm {
 pub fn run(ctx: &mut Ctx) {
     // strings through the lexical parser
     let mut sink = |ctx: &mut Ctx, f: Fmt, s: &str, family: &'static str| probe_string(ctx, f, s, family);
-    hostile_workload(ctx, 0xC05, 250_000, 10_000_000, &mut sink);
+    hostile_workload(ctx, 0xC05, 800_000, 16_000_000, &mut sink);
     // arbitrary lexical values through fold
     let h = HostileLex::new();
     let mut rng = ctx.rng(0xC05F);
-    let n = ctx.share(200_000, 8_000_000);
+    let n = ctx.share(800_000, 16_000_000);
     for i in 0..n {
         if ctx.out_of_time() {
             ctx.report.inconclusive.push(format!("fold workload cut at {} of {}", i, n));
